@@ -3,15 +3,16 @@
 From Coq Require Import List Bool Arith String.
 Import ListNotations.
 From Lime Require Import Base.Res Hs.Types Hs.Server Hs.Client Hs.ClientBuilder Hs.Interop Corr.HsServer.
+(* (case files also use Corr.Builder's built_conf / built_oracle for servers made by a ServerBuilder) *)
 Open Scope string_scope.
 Open Scope list_scope.
 
 Inductive iout := IRet (s : state) | IErr | IBlocked | IPanic.
 Record icase := {
   i_sconf : sconf;
-  i_auth : list (nat * string * option nat * nat * ares);
-  i_reg : list (nat * Server.rres);
+  i_oracle : oracle;        (* the server's callbacks: tables (auth_of / reg_of) or what a ServerBuilder installed *)
   i_cdesc : cdesc;
+  i_ident : nat;            (* the identity the client presents *)
   i_wire : bool;            (* envelopes cross the connection as JSON text *)
   i_snode : nat;
   (* observed *)
@@ -23,17 +24,20 @@ Record icase := {
 }.
 
 Definition rounds := 12.
-Definition i_oracle (c : icase) : oracle := {| o_auth := auth_of (i_auth c); o_reg := reg_of (i_reg c) |}.
+Definition i_cconf (c : icase) : cconf :=
+  let d := conf_of (i_cdesc c) in
+  {| cc_comp_sel := cc_comp_sel d; cc_enc_sel := cc_enc_sel d; cc_auth := cc_auth d; cc_identity := i_ident c;
+     cc_kind := cc_kind d; cc_tls_ok := cc_tls_ok d |}.
 Definition joint (c : icase) : list cin :=
-  play (i_wire c) (i_snode c) (i_sconf c) (i_oracle c) (conf_of (i_cdesc c)) rounds [].
+  play (i_wire c) (i_snode c) (i_sconf c) (i_oracle c) (i_cconf c) rounds [].
 (* the joint run is complete: one more round adds nothing *)
 Definition stable (c : icase) : bool :=
   list_eqb cin_eqb (joint c)
-    (round (i_wire c) (i_snode c) (i_sconf c) (i_oracle c) (conf_of (i_cdesc c)) (joint c)).
+    (round (i_wire c) (i_snode c) (i_sconf c) (i_oracle c) (i_cconf c) (joint c)).
 Definition model_ends (c : icase) : ends :=
-  ends_of (i_wire c) (i_snode c) (i_sconf c) (i_oracle c) (conf_of (i_cdesc c)) (joint c).
+  ends_of (i_wire c) (i_snode c) (i_sconf c) (i_oracle c) (i_cconf c) (joint c).
 Definition model_out (c : icase) : iout :=
-  match snd (client_on (conf_of (i_cdesc c))
+  match snd (client_on (i_cconf c)
                (s_out (i_wire c) (i_snode c) (rr_trace (server_on (i_sconf c) (i_oracle c) (joint c))))) with
   | CRet s => IRet (vs_state s) | CErr => IErr | CBlocked => IBlocked | CPanic => IPanic
   end.
